@@ -653,7 +653,7 @@ func c22GenArg(t *rapid.T, label string) *c22Arg {
 
 // c22GenLine constructs a command line aimed at the registered tree.
 func c22GenLine(t *rapid.T, cmds []c22Cmd, label string) string {
-	kind := rapid.IntRange(0, 23).Draw(t, label+"-kind")
+	kind := rapid.IntRange(0, 25).Draw(t, label+"-kind")
 	switch kind {
 	case 0:
 		return "" // "/" alone
@@ -704,6 +704,10 @@ func c22GenLine(t *rapid.T, cmds []c22Cmd, label string) string {
 		return strings.Replace(line, " ", "  ", 1)
 	case 5:
 		return strings.ToUpper(parts[0]) + strings.TrimPrefix(line, parts[0])
+	case 24, 25:
+		// the player typed an extra leading slash ("//wand"): exactly one slash is
+		// the command prefix, the rest belongs to the command line
+		return "/" + line
 	}
 	return line
 }
